@@ -67,11 +67,35 @@ Record sf_inv (sf : sfile) : Prop := mkSfInv {
   si_bound : forall i s, In (i, s) (sf_all sf) -> (i < sf_next sf)%N;
   si_tbound : forall i, In i (sf_tomb sf) -> (i < sf_next sf)%N;
   (* per key, only the newest id recorded for it can be undeleted *)
-  si_first : forall i s, In (i, s) (sf_all sf) -> sf_deleted sf i = false -> find_key s (sf_all sf) = Some i
+  si_first : forall i s, In (i, s) (sf_all sf) -> sf_deleted sf i = false -> find_key s (sf_all sf) = Some i;
+  (* the segment files determine the next id: what openSegments recovers is what is in memory *)
+  si_segs : seg_recover (sf_segs sf) = sf_next sf;
+  si_segb : forall h, In h (sf_segs sf) -> (h < sf_next sf)%N
 }.
 
 Lemma sf_inv_empty : sf_inv sf_empty.
-Proof. constructor; cbn; try (intros; tauto); try reflexivity. constructor. Qed.
+Proof.
+  constructor; cbn; try (intros; tauto); try reflexivity; [constructor|].
+  intros h [<-|[]]. lia.
+Qed.
+
+Lemma seg_recover_pos segs : (1 <= seg_recover segs)%N.
+Proof.
+  induction segs as [|h segs IH]; cbn [seg_recover]; [lia|].
+  destruct (N.leb_spec 1 h); lia.
+Qed.
+
+(* after an insert entry for an id above every id of the segment files, numbering continues after it *)
+Lemma seg_recover_note i segs :
+  (1 <= i)%N -> (forall h, In h segs -> (h < i)%N) ->
+  seg_recover (seg_note i segs) = (i + 1)%N /\ (forall h, In h (seg_note i segs) -> (h < i + 1)%N).
+Proof.
+  intros Hi Hb. destruct segs as [|h segs]; cbn [seg_note seg_recover].
+  - destruct (N.leb_spec 1 i); [|lia]. split; [reflexivity|]. intros h [<-|[]]. lia.
+  - assert (Hh : (h < i)%N) by (apply Hb; left; reflexivity).
+    replace (N.max h i) with i by lia. destruct (N.leb_spec 1 i); [|lia]. split; [reflexivity|].
+    intros h' [<-|Hin]; [lia|]. assert (Hlt : (h' < i)%N) by (apply Hb; right; exact Hin). lia.
+Qed.
 
 Section Inv.
   Variable sf : sfile.
@@ -149,7 +173,9 @@ Section Inv.
       split; [exact I|]. split; [exact Hk|]. split; [exact Hd|]. split; [lia|]. split; [intros j _; split; reflexivity|].
       left; split; reflexivity.
     - set (i := sf_next sf). pose proof sf_next_fresh as Hfresh. fold i in Hfresh.
-      set (sf' := mkSf _ _ _ _ _).
+      set (sf' := mkSf _ _ _ _ _ _).
+      assert (Hipos : (1 <= i)%N) by (unfold i; rewrite <- (si_segs sf I); apply seg_recover_pos).
+      destruct (seg_recover_note i (sf_segs sf) Hipos (si_segb sf I)) as [Hsr Hsb].
       assert (Hkey : forall j, sf_key sf' j = if N.eqb j i then Some s else sf_key sf j).
       { intros j. unfold sf_key, sf'. cbn. destruct (N.eqb j i); reflexivity. }
       assert (Hdel : forall j, j <> i -> sf_deleted sf' j = sf_deleted sf j).
@@ -174,6 +200,8 @@ Section Inv.
              ++ apply series_eqb_eq in Est; subst t. exfalso.
                 rewrite (proj1 (sf_find_None s) E j) in Hd; [discriminate|]. apply sf_key_In. exact H.
              ++ fold (sf_all sf). exact Hf.
+        * cbn [sf_segs sf_next sf']. exact Hsr.
+        * cbn [sf_segs sf_next sf']. exact Hsb.
       + intros j Hj. split; [rewrite Hkey; apply N.eqb_neq in Hj; rewrite Hj; reflexivity|apply Hdel; exact Hj].
   Qed.
 
@@ -186,7 +214,7 @@ Section Inv.
     (forall j, j <> i -> sf_deleted sf' j = sf_deleted sf j).
   Proof.
     unfold sf_delete. destruct (sf_deleted sf i) eqn:Ed; cbv zeta; [split; [exact I|]; repeat split; auto|].
-    set (sf' := mkSf _ _ _ _ _).
+    set (sf' := mkSf _ _ _ _ _ _).
     assert (Hkey : forall j, sf_key sf' j = sf_key sf j) by reflexivity.
     assert (Hdel : forall j, sf_deleted sf' j = N.eqb j i || sf_deleted sf j).
     { intros j. unfold sf_deleted. rewrite Hkey. unfold sf'; cbn [sf_tomb memb existsb]. rewrite (N.eqb_sym j i). destruct (N.eqb i j); reflexivity. }
@@ -201,13 +229,31 @@ Section Inv.
       + cbn. intros j [<-|H]; [exact Hb|apply (si_tbound sf I); exact H].
       + intros j t Hin Hd. rewrite Hdel in Hd. apply orb_false_iff in Hd. destruct Hd as [_ Hd].
         apply (si_first sf I); assumption.
+      + apply (si_segs sf I).
+      + apply (si_segb sf I).
     - intros j Hj. rewrite Hdel. apply N.eqb_neq in Hj. rewrite Hj. reflexivity.
   Qed.
 
-  (* ----- reopen: nothing observable changes ----- *)
+  (* ----- a new segment file: nothing observable changes, the next id is still recoverable ----- *)
+
+  Lemma sf_roll_spec :
+    sf_inv (sf_roll sf) /\ sf_next (sf_roll sf) = sf_next sf /\
+    (forall i, sf_key (sf_roll sf) i = sf_key sf i) /\ (forall i, sf_deleted (sf_roll sf) i = sf_deleted sf i) /\
+    (forall s, sf_find (sf_roll sf) s = sf_find sf s).
+  Proof.
+    split; [|repeat split; reflexivity].
+    destruct I as [H1 H2 H3 H4 H5 H6 H7]. constructor; try assumption.
+    cbn [sf_roll sf_segs sf_next]. intros h [<-|H]; [|apply H7; exact H].
+    rewrite <- H6. pose proof (seg_recover_pos (sf_segs sf)). lia.
+  Qed.
+
+  (* ----- reopen: nothing observable changes, the next id is recovered from the segment files ----- *)
 
   Lemma sf_reopen_id : sf_reopen sf = sf.
-  Proof. unfold sf_reopen. rewrite (si_replay sf I). destruct sf; reflexivity. Qed.
+  Proof.
+    unfold sf_reopen, sf_index_recover. rewrite (si_replay sf I). cbn [sf_disk sf_log sf_ins sf_tomb].
+    rewrite (si_segs sf I). destruct sf; reflexivity.
+  Qed.
 End Inv.
 
 (* ----- compaction ----- *)
@@ -248,12 +294,12 @@ Lemma sf_compact_spec sf :
   (forall i, sf_deleted sf' i = sf_deleted sf i) /\
   (forall i, sf_key sf' i = if sf_deleted sf i then None else sf_key sf i).
 Proof.
-  intros I. unfold sf_compact, sf_reopen. cbn [sf_log sf_disk sf_next].
+  intros I. unfold sf_compact, sf_index_recover. cbn [sf_log sf_disk sf_next sf_segs].
   destruct (leading_tombs_replay (sf_log sf)) as [Hl1 Hl2].
   destruct (sf_replay (leading_tombs (sf_log sf))) as [ins tomb] eqn:Er. cbn in Hl1, Hl2. subst ins.
   rewrite (si_replay sf I) in Hl2. cbn in Hl2.
   set (disk := filter (fun p => negb (sf_deleted sf (fst p))) (sf_ins sf ++ sf_disk sf)).
-  set (sf' := mkSf disk _ [] tomb _).
+  set (sf' := mkSf disk _ [] tomb _ _).
   assert (Hkey : forall i, sf_key sf' i = if sf_deleted sf i then None else sf_key sf i).
   { intros i. unfold sf_key at 1. cbn [sf_ins sf_disk sf' assoc_id].
     destruct (assoc_id i disk) as [s|] eqn:E.
@@ -279,4 +325,6 @@ Proof.
   - unfold sf_all. cbn [sf_ins sf_disk sf' app]. intros i s H Hd. rewrite Hdel in Hd.
     apply filter_In in H. destruct H as [H _]. pose proof (si_first sf I i s H Hd) as Hf.
     apply find_key_filter; [exact Hf|]. cbn. rewrite Hd. reflexivity.
+  - cbn [sf_segs sf_next sf']. apply (si_segs sf I).
+  - cbn [sf_segs sf_next sf']. apply (si_segb sf I).
 Qed.
